@@ -186,7 +186,10 @@ int int_digits(double v) { double a = std::fabs(v); return a < 1 ? 1 : (int)std:
 L tol_rt(double v, L halfunit, bool azi) {
   L u = azi ? (L)ulp_of(360.0) : (L)ulp_of(v);
   L k = std::fabs(v) > 9e15 && !azi ? 4 + int_digits(v) : 4;
-  return std::max(halfunit + u, k * u);
+  // half a unit of the last printed digit plus a few units of round-off: where the last digit is itself only ~7 ulp wide
+  // (full-precision output) the rounding decision in Encode and the three-term sum in Decode add 1-2 ulp to the half unit
+  // (thorough tier, 8.9e7 cases: half + 1.25 ulp and half + 1.07 ulp seen)
+  return halfunit + k * u;
 }
 
 Verdict check_a(const J& r) {
